@@ -485,6 +485,17 @@ func (r *rewriter) post(c *astutil.Cursor) bool {
 		}
 		c.Replace(&ast.ExprStmt{X: call(r.rt("Send"), n.Chan, n.Value)})
 	case *ast.UnaryExpr:
+		if n.Op == token.AND && r.access {
+			// &g of a package-level variable of the module (handed to a decoder, say): counts as a write of g
+			if id, ok := unparen(n.X).(*ast.Ident); ok {
+				if v, ok := r.info.Uses[id].(*types.Var); ok && v.Pkg() != nil && v.Parent() == v.Pkg().Scope() && strings.HasPrefix(v.Pkg().Path(), modPath) {
+					if ft := v.Type().String(); !strings.HasPrefix(ft, "sync.") && !strings.Contains(ft, "zzverif") {
+						c.Replace(call(r.rt("Wr"), n, str(v.Pkg().Name()+"."+v.Name())))
+					}
+				}
+			}
+			return true
+		}
 		if n.Op != token.ARROW || r.skip[n] {
 			return true
 		}
